@@ -13,14 +13,15 @@ Definition pf_of_decimal (r : pf_result) : pfres :=
 Definition go_parse_float (s : string) : pfres := pf_of_decimal (parse_float s).
 
 Definition go_number_of_string : string -> lres f64 := number_of_string go_parse_float.
-Definition go_mult_by_pow10 : f64 -> Z -> f64 :=
-  mult_by_pow10 format_float_g go_parse_float format_int atoi.
+(* the digits of strconv.FormatFloat(x, 'e', -1, 64) as an integer, and the power of ten *)
+Definition go_shortest (x : f64) : Z * Z :=
+  match x with S754_finite _ m e => shortest_core m e | _ => (0, 0) end.
 Definition go_round : f64 -> option Z -> f64 :=
-  round format_float_g go_parse_float format_int atoi.
+  round go_parse_float format_int go_shortest.
 Definition go_power (pow_fn : f64 -> f64 -> f64) : f64 -> f64 -> lres f64 := power pow_fn.
 Definition go_sqrt : f64 -> lres f64 := sqrt.
 Definition go_format_base : f64 -> option f64 -> lres string :=
-  format_base format_float_g go_parse_float format_int atoi.
+  format_base go_parse_float format_int go_shortest.
 
 Definition go_format_number : nat -> f64 -> string -> decimal_format -> lres string :=
   format_number format_float_fixed.
